@@ -580,4 +580,32 @@ example : ∃ st ag' info h, validate ⟨fun _ _ => #[], fun _ => #[]⟩ (agentI
 
 example : passed .success := Or.inl rfl
 
+/-! ### the default validater binds a key to the WHOLE username -/
+
+/-- **the key bound to its USERNAME**: `stun_agent_default_validater` hands out a password only from a table entry whose
+    username is exactly the message's USERNAME — never for a name that merely starts with, or extends, a registered one —
+    and it is the first such entry. -/
+theorem C04_default_validater_exact_name (tab : List (Bytes × Option Bytes)) (uname : Bytes) (k : Option Bytes)
+    (h : defaultValidater tab uname = some k) : (uname, k) ∈ tab := by
+  unfold defaultValidater at h
+  cases hf : tab.find? (·.1 == uname) with
+  | none => simp [hf] at h
+  | some e =>
+    simp only [hf, Option.map_some, Option.some.injEq] at h
+    have hm := List.mem_of_find?_eq_some hf
+    have he := List.find?_some hf
+    have : e.1 = uname := by simpa using he
+    cases e; simp_all
+
+/-- an unknown name is refused whatever it starts with -/
+theorem C04_default_validater_unknown_name (tab : List (Bytes × Option Bytes)) (uname : Bytes)
+    (h : ∀ e ∈ tab, e.1 ≠ uname) : defaultValidater tab uname = none := by
+  unfold defaultValidater
+  rw [List.find?_eq_none.mpr]
+  · rfl
+  · intro e he; simpa using h e he
+
+example : defaultValidater [(#[99, 97, 114, 108], some #[1]), (#[99, 97, 114, 108, 58], some #[2])] #[99, 97, 114, 108, 58] = some (some #[2]) ∧
+    defaultValidater [(#[99, 97, 114, 108], some #[1])] #[99, 97, 114, 108, 58] = none := by decide
+
 end Nice.Props.C04
